@@ -114,6 +114,12 @@ def scanNameHead : List Char → Option (List Char × List Char)
     if isDigit c then some (c :: cs.takeWhile isDigit, cs.dropWhile isDigit)
     else scanIdent (c :: cs)
 
+/-- `X+ \]` at the start (after the opening bracket): the text between the brackets and the rest -/
+def scanIndex (inBr : Char → Bool) (r : List Char) : Option (List Char × List Char) :=
+  match r.takeWhile inBr, r.dropWhile inBr with
+  | x :: xs, ']' :: r' => some (x :: xs, r')
+  | _, _ => none
+
 /-- `(?: [.] [^\W\d]\w* | \[ X+ \] )*` at the start, `inBr` = the class `X` (`[^]]` at top level, `[^]{}]` in a nested
     field).  Returns the text consumed and the rest.  `fuel` ≥ number of characters. -/
 def scanNameTail (inBr : Char → Bool) : Nat → List Char → List Char × List Char
@@ -127,11 +133,11 @@ def scanNameTail (inBr : Char → Bool) : Nat → List Char → List Char × Lis
         ('.' :: id ++ t, r'')
       | none => ([], cs)
     | '[' :: r =>
-      match r.takeWhile inBr, r.dropWhile inBr with
-      | _ :: _, ']' :: r' =>
+      match scanIndex inBr r with
+      | some (x, r') =>
         let (t, r'') := scanNameTail inBr fuel r'
-        ('[' :: r.takeWhile inBr ++ ']' :: t, r'')
-      | _, _ => ([], cs)
+        ('[' :: x ++ ']' :: t, r'')
+      | none => ([], cs)
     | _ => ([], cs)
 
 /-- NAME at the start: `none` if no head -/
